@@ -109,7 +109,8 @@ def run(ctx):
     run_mix(ctx)
 
 
-MKINDS = ["spin_mutex", "queuing_mutex", "mutex", "speculative_spin_mutex", "spin_rw_mutex", "queuing_rw_mutex", "rw_mutex", "speculative_spin_rw_mutex"]
+MKINDS = ["spin_mutex", "queuing_mutex", "mutex", "speculative_spin_mutex", "spin_rw_mutex", "queuing_rw_mutex", "rw_mutex", "speculative_spin_rw_mutex", "null_mutex",
+          "queuing_mutex (queue order)", "queuing_rw_mutex writers (queue order)"]
 
 
 def mdesc(c):
@@ -123,6 +124,10 @@ def mix_oracle(c, toks):
     d = {toks[i]: int(toks[i + 1]) for i in range(0, len(toks) - 1, 2)}
     if d.get("EXCL"):
         return ("mutex-exclusion", "%s: %d times a writer was inside together with another holder" % (mdesc(c), d["EXCL"]))
+    if d.get("UPG"):
+        return ("mutex-upgrade-downgrade", "%s: %d times upgrade_to_writer returned true although another writer ran in between, or a writer got in during downgrade_to_reader" % (mdesc(c), d["UPG"]))
+    if d.get("FIFO"):
+        return ("mutex-queue-order", "%s: blocked acquirers that queued one after the other did not get the lock in queue order (%d of the rounds)" % (mdesc(c), d["FIFO"]))
     if d.get("LOST"):
         return ("mutex-lost-update", "%s: %d updates of the plain counter protected by the lock were lost" % (mdesc(c), d["LOST"]))
     return None
@@ -137,8 +142,9 @@ def run_mix(ctx):
         return ctx.broken("drv_mutex build", err)
     rng = ctx.rng
     cases = [[k, rng.choice([2, 3, 4, 8]), rng.choice([2000, 6000]), ctx.seed * 1000 + i * 8 + k] for i in range(ctx.scale(2, 40)) for k in range(8)]
+    cases += [[9, 3 + i % 4, 4, ctx.seed * 1000 + 900 + i] for i in range(ctx.scale(2, 20))] + [[10, 3 + i % 4, 4, ctx.seed * 1000 + 950 + i] for i in range(ctx.scale(2, 20))]
     ctx.rules.append("mutex-mix (oracle only): all eight mutex types, 2-8 real threads, each with ONE scoped_lock object used again and again on two mutexes, blocking and try acquisitions mixed, "
-                     "reader/writer with upgrade_to_writer / downgrade_to_reader; predicate = never a writer together with another holder, no lost update of a plain counter, every acquirer gets the lock (watchdog)")
+                     "reader/writer with upgrade_to_writer / downgrade_to_reader (upgrade 'true' only if no writer ran in between; no writer during downgrade); queuing_mutex / queuing_rw_mutex: 3-6 acquirers queued one after the other are served in queue order; predicate = never a writer together with another holder, no lost update of a plain counter, every acquirer gets the lock (watchdog)")
     vlib.oracle_tie(ctx, "mutex-mix", exe, [], cases, mix_oracle, describe=mdesc, bucket=lambda c: "mutex-mix %s" % MKINDS[c[0]], timeout=900)
 
 
